@@ -47,6 +47,7 @@ THEOREMS = [
     "AiuVerif.C04.no_fuel_exhaustion",
     "AiuVerif.C04.error_is_budget",
     "AiuVerif.C04.lane_budget",
+    "AiuVerif.C04.moved_only_if_offending",
 ]
 RULE = ("interval families as X events (plus counter events) on (pid,tid) lanes: exhaustive over one lane with "
         "endpoints in {0..4} (all ordered families of <=3 slices, all multisets of 4; zero-length and "
@@ -62,9 +63,6 @@ TRUSTED = ["hash((pid, tid)) lane keys assumed injective on the generated domain
 ASSUMPTIONS = ["tids are non-negative integers (tid -1 collides with the code's reserved key)",
                "every event has pid, tid and ts; only -O tid and -O drop are in the model"]
 NOT_YET_PROVED = [
-    "'changes only the tid of the OFFENDING slice': that a slice whose tid is changed partially overlaps another slice "
-    "of its input lane (moved => offending) is checked by the oracle on every real run and by the correspondence, "
-    "not proved in Lean (needs: lane stacks hold ends of emitted slices + the (ts,-dur) tie-break + monotonicity of round)",
     "converse of the budget branch: that a slice colliding on its lane and on all 5 lanes of the range DOES raise KeyError "
     "is shown on a witness (staircase of 7, decide) and by correspondence only; proved: at most 5 extra lanes per input lane "
     "(lane_budget) and KeyError is the only possible failure on well-formed input (error_is_budget)",
